@@ -327,6 +327,10 @@ func negServe(w *tr.Writer, conn *srv.Conn, sc negConn, n int, opDone <-chan str
 				out = "<iq type='error' id='" + lastID + "'><error type='cancel'><conflict xmlns='urn:ietf:params:xml:ns:xmpp-stanzas'/></error></iq>"
 			case "errorecho":
 				out = "<iq type='error' id='" + lastID + "'><bind xmlns='" + srv.NSBind + "'><resource>res</resource></bind><error type='modify'><bad-request xmlns='urn:ietf:params:xml:ns:xmpp-stanzas'/></error></iq>"
+			case "resultempty":
+				out = "<iq type='result' id='" + lastID + "'/>"
+			case "resultother":
+				out = "<iq type='result' id='" + lastID + "'><query xmlns='jabber:iq:roster'/></iq>"
 			case "other":
 				out = "<message><body>no bind for you</body></message>"
 			case "close":
@@ -351,6 +355,8 @@ func negServe(w *tr.Writer, conn *srv.Conn, sc negConn, n int, opDone <-chan str
 				out = "<enabled xmlns='" + srv.NSSM + "'/>"
 			case "failed":
 				out = "<failed xmlns='" + srv.NSSM + "'><unexpected-request xmlns='urn:ietf:params:xml:ns:xmpp-streams'/></failed>"
+			case "failedbare":
+				out = "<failed xmlns='" + srv.NSSM + "'/>"
 			case "other":
 				out = "<resumed xmlns='" + srv.NSSM + "' previd='x' h='0'/>"
 			case "close":
@@ -616,7 +622,7 @@ func negRunOne(w *tr.Writer, tid int, raw json.RawMessage, c *common) error {
 		run.conn = nil
 		run.mu.Unlock()
 		if cc != nil {
-			cc.Close()
+			srv.HardClose(cc)
 		}
 	}
 	w.Emit(tr.Rec{"ev": "fin"})
